@@ -1,4 +1,51 @@
-From WV Require Import Model.FsmPub Proofs.FsmPubP.
-Theorem C10_placeholder : forall ls ls2, well_used ls -> csm (exec init (ls ++ LTeardown :: LPublishShutdown :: ls2)) = Shutdown.
-Proof. exact closed_reports_shutdown. Qed.
-Print Assumptions C10_placeholder.
+(* C10 — stopping the server is safe and final.
+   Model/StopLTS.v: any number of Stop calls, Serve, any number of handshakes (quit check, single-
+   connection check, upgrade, admission under the lock), every admitted session with its read
+   pump, write pump, deferred calls and close callback and its reader, UpdatePublicKeys dropping
+   sessions, API calls at any moment; one label per scheduling step or environment move. `good` is
+   the configuration of the code as it is now (re-extracted from the sources on every run); ls
+   ranges over ALL schedules. *)
+From Coq Require Import List.
+From WV Require Import Model.StopLTS Proofs.StopP.
+Import ListNotations.
+
+(* Stop never crashes the process, whatever it lands on (handshakes in progress, API calls, a
+   second Stop), and neither does anything that is called afterwards *)
+Theorem C10_never_crashes : forall ls, crashed (exec good init ls) = false.
+Proof. intros ls. exact (i_nc _ (inv_exec ls init inv_init)). Qed.
+Print Assumptions C10_never_crashes.
+
+(* once a Stop which tore the server down has returned - in every state of every schedule from
+   then on - quit and done have fired (so Serve returns by its own next step), the connection
+   manager is detached, every session ever admitted has run its close callback (unregistered,
+   wait group unit released, reader released), its socket is closed, its read pump can at most be
+   on its way out, and no refused handshake holds an open socket *)
+Theorem C10_stopped_is_final : forall ls, tore (exec good init ls) = true -> final (exec good init ls) = true.
+Proof. intros ls. apply inv_final. exact (inv_exec ls init inv_init). Qed.
+Print Assumptions C10_stopped_is_final.
+
+(* no new session is admitted once the connection manager has been detached: no handshake step
+   adds a session *)
+Theorem C10_nothing_admitted_after_stop : forall ls, let s := exec good init ls in cmgr s = false ->
+  forall j ok s', step good s (LHs j ok) = Some s' -> length (ss s') = length (ss s).
+Proof. exact nothing_admitted_after_stop. Qed.
+Print Assumptions C10_nothing_admitted_after_stop.
+
+(* a second Stop returns by its own steps, and every API call returns, at any moment *)
+Theorem C10_second_stop_returns : forall ls k, let s := exec good init ls in
+  cmgr s = false -> k < length (stops s) -> getP s k = P1 -> step good s (LStop k) = Some (setP (s <| done := true |>) k (PRet false)).
+Proof. exact second_stop_returns. Qed.
+Print Assumptions C10_second_stop_returns.
+Theorem C10_api_returns : forall ls a, let s := exec good init ls in step good s (LApi a) = Some s.
+Proof. exact api_after_stop_returns. Qed.
+Print Assumptions C10_api_returns.
+
+(* the code as it was, refuted: any API call after Stop, and a second Stop, kill the process *)
+Theorem C10_old_api_after_stop_refuted :
+  crashed (exec (mkCfg true false true true true true true true true true true) init [LNewStop; LStop 0; LStop 0; LApi AOpen]) = true.
+Proof. vm_compute. reflexivity. Qed.
+Print Assumptions C10_old_api_after_stop_refuted.
+Theorem C10_old_second_stop_refuted :
+  crashed (exec (mkCfg false true true true true true true true true true true) init [LNewStop; LNewStop; LStop 0; LStop 0; LStop 1; LStop 1]) = true.
+Proof. vm_compute. reflexivity. Qed.
+Print Assumptions C10_old_second_stop_refuted.
